@@ -729,6 +729,23 @@ theorem default_range_enumerated (lags leads n : Nat) (hleads : leads < n) :
     rw [List.pairwise_map]
     exact (List.pairwise_lt_range).imp (by intro a b h; omega)
 
+/-- Boundary: a span of exactly `LAGS + LEADS + 1` periods has exactly one solvable period, position `LAGS`
+    (and a span of `LAGS + LEADS` periods none when `LAGS > 0`; with `LAGS = 0` the end label `span[-1-LEADS]` does
+    not exist — IndexError in the code, `leads < n` guard in M1's `solve`). -/
+theorem default_range_single (lags leads : Nat) :
+    periodRange lags ((lags + leads + 1) - 1 - leads) = [lags] ∧
+    (0 < lags → periodRange lags ((lags + leads) - 1 - leads) = []) := by
+  constructor
+  · unfold periodRange
+    have : lags + leads + 1 - 1 - leads + 1 - lags = 1 := by omega
+    rw [this]; simp [List.range_succ]
+  · intro h
+    unfold periodRange
+    have : lags + leads - 1 - leads + 1 - lags = 0 := by omega
+    rw [this]; rfl
+
+example : periodRange 2 ((2 + 1 + 1) - 1 - 1) = [2] := by decide
+
 /-- The default range is what M1's `solve` iterates over (`start`/`end` not given). -/
 theorem default_range_is_solve_range {σ V : Type} (I : Interp σ V) (o : Opts) (n lags leads : Nat) (w : World σ)
     (h0 : ¬ o.minIter > o.maxIter) (hn : n ≠ 0) (hl : lags < n) (hd : leads < n) :
